@@ -41,7 +41,7 @@ def main(argv):
                 results[d.name] = dict(error='patch does not apply: ' + out[-200:]); print(d.name, 'PATCH FAILS'); continue
             rc_t, out_t = sh(['/venv/bin/python', '-m', 'pytest', '-q', '-p', 'no:cacheprovider'], cwd=wt)
             suite = out_t.strip().split('\n')[-1]
-            rc_d, out_d = sh(['/venv/bin/python', str(d / 'demo.py')], cwd=wt, timeout=600)
+            rc_d, out_d = sh(['/venv/bin/python', str(d / 'demo.py')], cwd=wt, timeout=600, env=dict(os.environ, PYTHONPATH=str(wt)))
             res = dict(property=prop, suite=suite, suite_ok=rc_t == 0, demo_exit_with_change=rc_d, checks={})
             for p in (props or [prop]):
                 env = dict(os.environ, VERIF_REPO=str(wt), VERIF_SEED=os.environ.get('VERIF_SEED', '0'))
@@ -49,7 +49,7 @@ def main(argv):
                 viol = [l for l in out_c.split('\n') if l.startswith('VIOLATION')]
                 res['checks'][p] = dict(exit=rc_c, violation=viol[0] if viol else None, summary=out_c.strip().split('\n')[-1][:300])
             sh(['git', 'checkout', '-q', '--', '.'], cwd=wt); sh(['git', 'clean', '-fdq'], cwd=wt)
-            rc_d0, _ = sh(['/venv/bin/python', str(d / 'demo.py')], cwd=wt, timeout=600)
+            rc_d0, _ = sh(['/venv/bin/python', str(d / 'demo.py')], cwd=wt, timeout=600, env=dict(os.environ, PYTHONPATH=str(wt)))
             res['demo_exit_without_change'] = rc_d0
             results[d.name] = res
             caught = [p for p, c in res['checks'].items() if c['exit'] == 1]
